@@ -399,6 +399,95 @@ def build():
         "@cache on add_table: the body runs once per table; IDX is a class invariant kept by lookup_key/init",
     ]
     plan.trusted += ["pyvc AST->SMT translation (cross-checked against CPython)", "z3 5.1.0 (quantified VCs)", "cvc5 1.0.3"]
+
+
+    # ------------------------------------------------------------------ table_rich_text: the scan for a key cannot stop before the key is found
+    def rich_text_scan_is_exhaustive():
+        import ast as _ast
+        from pyvc import extract as _ex
+        fi = _ex.find_function("model:_NumbersModel.table_rich_text")
+        loops = [n for n in fi.node.body if isinstance(n, _ast.For) and "entries" in _ast.unparse(n.iter)]
+        if len(loops) != 1:
+            return False, f"anchor lost: {len(loops)} top-level loops over the rich-text entries", 0
+        loop = loops[0]
+        bad = []
+        for st in loop.body:
+            is_match = isinstance(st, _ast.If) and isinstance(st.test, _ast.Compare) and len(st.test.ops) == 1 and isinstance(st.test.ops[0], _ast.Eq) \
+                and {"string_key", "entry.key"} == {_ast.unparse(st.test.left), _ast.unparse(st.test.comparators[0])}
+            if is_match:
+                continue
+            for n in _ast.walk(st):
+                if isinstance(n, (_ast.Break, _ast.Return, _ast.Raise)):
+                    bad.append(f"L{n.lineno}: the scan over the rich-text entries can end ({type(n).__name__.lower()}) before the wanted key is reached: an "
+                               "entry stored later in the list is not found")
+        return (not bad), bad[:3], 1
+    plan.ground.append(("rich-text-lookup-scans-every-entry", rich_text_scan_is_exhaustive))
+
+    # ------------------------------------------------------------------ storage_buffers: every row is decoded with ITS OWN buffer, offsets and offset width
+    class RowInfosV(Custom):
+        def __init__(self, n):
+            self.n = n
+
+        def length(self, ex):
+            return self.n
+
+        def getitem(self, ex, idx, line):
+            owner = z3.Int(fresh_name("row_record"))
+            return PObj("RowInfoV", {k: PObj("FieldOf", {"owner": owner, "what": k}) for k in ("cell_storage_buffer", "cell_offsets", "has_wide_offsets")})
+
+    class TilesV(Custom):
+        def __init__(self, n):
+            self.n = n
+
+        def length(self, ex):
+            return self.n
+
+        def getitem(self, ex, idx, line):
+            rn = z3.Int(fresh_name("n_rowinfos"))
+            ex.assume(rn >= 0)
+            return PObj("TileV", {"last_saved_in_BNC": ex.fresh("bool", "bnc"), "rowInfos": RowInfosV(rn)})
+
+    class BufListV(Custom):
+        def __init__(self):
+            self.ln = z3.IntVal(0)
+
+        def length(self, ex):
+            return self.ln
+
+        def method(self, ex, name, args, kwargs, line):
+            if name != "append" or not (isinstance(args[0], PObj) and args[0].cls == "RowBuffersV"):
+                raise Unsupported(f"buffers.{name}")
+            self.ln = self.ln + 1
+
+    def sb_callee(ex, args, kwargs, line):
+        buf, offs, ncols, wide = args
+        ok = all(isinstance(x, PObj) and x.cls == "FieldOf" for x in (buf, offs, wide))
+        if not ok:
+            ex.oblige(f"row-decoded-from-its-own-record@L{line}: buffer, offsets and offset width are fields of a row record", z3.BoolVal(False), "ghost", line)
+            return PObj("RowBuffersV", {})
+        ex.oblige(f"row-decoded-from-its-own-record@L{line}: buffer, offsets and offset width come from the same row record",
+                  z3.And(buf.fields["owner"] == offs.fields["owner"], offs.fields["owner"] == wide.fields["owner"],
+                         z3.BoolVal((buf.fields["what"], offs.fields["what"], wide.fields["what"]) == ("cell_storage_buffer", "cell_offsets", "has_wide_offsets"))),
+                  "ghost", line)
+        ex.oblige(f"row-decoded-with-the-table-width@L{line}", T(ncols) == ex.entry_env["g_ncols"].t, "ghost", line)
+        return PObj("RowBuffersV", {})
+    plan.callee(Contract("model:get_storage_buffers_for_row", label="owner", model=sb_callee, when=lambda a: True,
+                         note="ghost model used by the storage_buffers contract only: checks which row record each argument belongs to"))
+
+    def sb_entry(ex):
+        nt = z3.Int(fresh_name("n_tiles"))
+        ex.assume(nt >= 0)
+        return {"self": PObj("ModelSB", {"g_tiles": TilesV(nt)}), "table_id": ex.fresh("int", "table_id"), "g_ncols": ex.fresh("int", "ncols")}
+    mmx = ctx.method_models = getattr(ctx, "method_models", {})
+    mmx[("ModelSB", "table_tiles")] = lambda ex, o, a, k, l: o.fields["g_tiles"]
+    mmx[("ModelSB", "number_of_columns")] = lambda ex, o, a, k, l: ex.entry_env["g_ncols"]
+    plan.target(Contract("model:_NumbersModel.storage_buffers", entry=sb_entry, ensures=[lambda ex, env: z3.BoolVal(isinstance(env["result"], BufListV))],
+                         raises={"UnsupportedError": None}, safety="fork", use_labels={"model:get_storage_buffers_for_row": "owner"},
+                         search=lambda plan_, c: {"custom": "search_layout", "native_module": plan_.native_module},
+                         local_views={"buffers": lambda ex, env: BufListV()},
+                         loops={1: LoopSpec([lambda ex, env: env["buffers"].ln >= 0], index="_t", havoc=[lambda ex, env: setattr(env["buffers"], "ln", z3.Int(fresh_name("nbuf")))]),
+                                2: LoopSpec([lambda ex, env: env["buffers"].ln >= 0], index="_r", havoc=[lambda ex, env: setattr(env["buffers"], "ln", z3.Int(fresh_name("nbuf")))])}))
+
     # chunk boundaries: what decides whether a member is read as an archive at all (C17's is_iwa_file: True iff the data is a sequence of
     # well-formed frames, 3-byte length) and how a framed member is decoded (C05's _decompress_all: one piece per frame, in order)
     from contracts import C05, C17
